@@ -36,6 +36,11 @@ def gen_plan(rng) -> dict:
     pal = R.gen_palette_of_specs(rng, t)
     nrec = rng.randint(2, 6)
     recs = [R.gen_recipe(rng, t, pal) for _ in range(nrec)]
+    if rng.random() < 0.15:
+        # measurement-boundary documents (their page width is calibrated before the run, see job())
+        recs.append(R.gen_boundary_recipe(rng, t, pal))
+        if rng.random() < 0.6:
+            recs.append(R.gen_boundary_recipe(rng, t, pal))
     # equal-valued documents built twice are the sharpest probe for sharing
     if rng.random() < 0.35:
         recs.append(json_copy(rng.choice(recs)))
@@ -677,12 +682,34 @@ def followup_plans(rng, plan: dict, res: dict, limit: int = 3) -> list:
     out = []
     rng.shuffle(dirty)
     for ri, ctype in dirty[:limit]:
-        base = plan["recipes"][ri]
+        base = json_copy(plan["recipes"][ri])
         if base["kind"] == "figure" and ctype in ("body", "header"):
             continue
+        if ctype == "body" and base.get("dfs") and rng.random() < 0.6:
+            # explicit widths: the document then keeps the caller's body object instead of a defaulted copy
+            for b, f in zip(base["bodies"], base["dfs"]):
+                if len(b.get("col_rel_width") or []) != len(f["cols"]):
+                    b["col_rel_width"] = [1] * len(f["cols"])
         var = json_copy(base)
         edits = [e for e in CONTEXT_EDITS if e[0].rstrip("*") != ctype]
-        if var["kind"] != "figure" and rng.random() < 0.6:
+        if var["kind"] == "single" and ctype in ("body", "header", "footnote", "source", "title", "page") \
+                and rng.random() < 0.35:
+            # the same component inside a LATER SECTION of a multi-section document
+            lite = {"small_nrow": False, "convert": False}
+            ncols0 = len(var["dfs"][0]["cols"])
+            first = R.gen_frame(rng, lite, ncols0, "plain")
+            var["kind"] = "multi"
+            if rng.random() < 0.7:
+                # a well-grouped table for the shared body, so that the later section can actually be rendered
+                var["dfs"] = [R.gen_frame(rng, lite, ncols0, "grouped")]
+            var["dfs"] = [first] + var["dfs"]
+            var["bodies"] = [{}] + var["bodies"]
+            h = var.get("headers")
+            var["headers"] = [[None], h if isinstance(h, list) and h else [None]] if h != "default" else "default"
+            if var.get("title") is None:
+                var["title"] = {"text": ["Follow-up title"]}
+            var["page"] = dict(var.get("page") or {}, page_title=rng.choice(["all", "last", "first"]))
+        elif var["kind"] != "figure" and rng.random() < 0.6:
             # another table of the same width: more rows, other texts (row heights, page breaks differ)
             lite = {"small_nrow": rng.random() < 0.7, "convert": False}
             var["dfs"] = [R.gen_frame(rng, lite, len(f["cols"]), "plain") for f in var["dfs"]]
@@ -780,12 +807,14 @@ def job(j: dict) -> dict:
     root, idx = j["root"], j["idx"]
     rng = core.rng_for(root, PROP, idx)
     plan = gen_plan(rng)
+    ncal = R.resolve_calibration(plan["recipes"], ws.setdefault("calib_cache", {}))
     refs = ws["refcache"].for_plan(plan)
     t0 = time.monotonic()
     res = run_plan(plan, refs, ws["figdir"], sweep=(idx % 8 == 0))
     vs = judge(plan, res, refs)
     out = summarise(plan, res, refs, idx)
     out["violations"] = []
+    out["calibrated_docs"] = ncal
     out["followups"] = 0
     out["followup_checked_encodes"] = 0
     if vs:
@@ -911,6 +940,8 @@ def coverage_worker(arg) -> dict:
         for idx in arg["indices"]:
             plan = gen_plan(core.rng_for(arg["root"], PROP, idx))
             for rec in plan["recipes"]:
+                if rec.get("calib"):
+                    continue
                 try:
                     d, _ = R.build(rec, None, None, figdir)
                     d.rtf_encode()
@@ -960,6 +991,7 @@ def main(opts) -> int:
     for n in range(min(tier["xcheck"], runs)):
         idx = xrng.randrange(runs)
         plan = gen_plan(core.rng_for(root, PROP, idx))
+        plan["recipes"] = [r for r in plan["recipes"] if not r.get("calib")] or plan["recipes"][:1]
         # half the sample: the recipe naming most distinct colours (set-order effects need >= 2)
         if n % 2 == 0:
             rec = max(plan["recipes"], key=lambda r: len({c for c in R.COLORS if f'"{c}"' in cjson(r)}))
@@ -1074,6 +1106,7 @@ def write_evidence(opts, good, nres, truncated, xres, n_new, n_known, wall_s, he
         },
         "histories_by_fault_mode": modes,
         "histories_fault_free": modes.get("none", 0),
+        "measurement_boundary_documents": sum(r.get("calibrated_docs", 0) for r in good),
         "greybox_followups": {"histories": sum(r.get("followups", 0) for r in good),
                               "checked_encodes": sum(r.get("followup_checked_encodes", 0) for r in good),
                               "trigger": "an encode changed a component object held by the document"},
